@@ -205,6 +205,41 @@ def _child(db, spec, kind, at):
     return rc, ""
 
 
+def _library_read(db):
+    """What a user's next session sees: the library's own readers are the *first* thing to open the file (in a fresh process)."""
+    rd, wr = os.pipe()
+    sys.stdout.flush()
+    sys.stderr.flush()
+    pid = os.fork()
+    if pid == 0:
+        out = {}
+        try:
+            os.close(rd)
+            sqlfault.PLAN.reset()
+            from pygaps.parsing import sqlite as S
+            for name, fn in (("isotherms", S.isotherms_from_db), ("materials", S.materials_from_db), ("adsorbates", S.adsorbates_from_db), ("material_property_types", S.material_property_types_from_db)):
+                try:
+                    out[name] = len(fn(db_path=db, verbose=False))
+                except BaseException as exc:
+                    out[name] = "%s: %s" % (type(exc).__name__, str(exc)[:160])
+            os.write(wr, json.dumps(out).encode())
+        finally:
+            os._exit(0)
+    os.close(wr)
+    chunks = []
+    while True:
+        b = os.read(rd, 65536)
+        if not b:
+            break
+        chunks.append(b)
+    os.close(rd)
+    os.waitpid(pid, 0)
+    try:
+        return json.loads(b"".join(chunks).decode())
+    except ValueError:
+        return {"harness": "reader process produced no report"}
+
+
 def _registry_mark():
     import pygaps
     return len(pygaps.MATERIAL_LIST), len(pygaps.ADSORBATE_LIST)
@@ -346,7 +381,20 @@ def _run_instance(case, ctx):
             if rc != sqlfault.EXIT_CODE:
                 ctx.error("c09: child did not die at the failpoint %s@%s (rc=%s): %s" % (kind, k, rc, tail[-200:]))
                 continue
+            # every other time the first thing to touch the file after the death is a query through the library
+            # (always for the long recordings, whose transactions leave a hot journal behind)
+            seen = _library_read(work) if (runs % 2 == 0 or case.get("big")) else None
             state = inspect(kind, k, "process died", False)
+            if seen is not None:
+                ctx.hook("library-reads-right-after-process-death")
+                now = dbtools.dump(work)
+                exp = {"isotherms": len(now["isotherms"]), "materials": len(now["materials"]), "adsorbates": len(now["adsorbates"])}
+                bad = {n: v for n, v in seen.items() if not isinstance(v, int)}
+                if bad:
+                    ctx.violation("%s/%s/stored-content-not-retrievable-after-process-death" % (target["fn"], kind), "the library's readers fail on the file a dead process left behind", where="%s@%s" % (kind, k), readers=bad)
+                elif state and any(seen.get(n) != v for n, v in exp.items()):
+                    ctx.violation("%s/%s/readers-disagree-with-file-after-process-death" % (target["fn"], kind), "the library's readers return a different number of records than the file holds", where="%s@%s" % (kind, k), seen=seen, file=exp)
+                ctx.count("reads_after_death", "%s/%s" % (kind, "ok" if not bad else "failed"))
             if state == "pre-image":
                 # repeat in a fresh process
                 rc2, tail2 = _child(work, target, None, None)
